@@ -121,6 +121,30 @@ def corner_jobs(tier):
             o = dict(dict=d, mode=mode, mf=mf, nice=32)
             bs, ka = real_window(dict(o))
             J.append(straddle_job(f"raw-straddles-move-d{d}-{mode}", "lzma2", o, bs, ka, {}))
+    # the window moves while positions are pending (flush with write_pos in the last keep_size_after bytes of the buffer, then
+    # more data), pending counts that are not multiples of 2^pb / 2^lp; and a streaming writer that flushes after every piece
+    for k, (mode, mf, nice, d, lclppb) in enumerate([("fast", "hc4", 32, 65536, (3, 0, 2)), ("normal", "bt4", 32, 65536, (3, 0, 2)),
+                                                     ("fast", "bt4", 30, 4096, (0, 2, 0)), ("normal", "hc4", 64, 4096, (3, 0, 4))]):
+        o = dict(dict=d, mode=mode, mf=mf, nice=nice, lc=lclppb[0], lp=lclppb[1], pb=lclppb[2])
+        bs, ka = real_window(dict(o))
+        J.append(flush_at_move_job(f"flush-at-move-{mode}-{mf}-d{d}", "lzma2", o, bs, ka, {}, cls=["text", "mixed"][k % 2]))
+    for mode, mf, piece in (("fast", "hc4", 2000), ("normal", "bt4", 5000)):
+        n = 700000 if mode == "fast" else 450000
+        sc = []
+        for _ in range(n // piece):
+            sc += [dict(op="w", n=piece), dict(op="f")]
+        J.append(E.mk_job(f"flush-each-write-{mode}-{mf}", opt=dict(dict=4096, mode=mode, mf=mf, nice=32),
+                          input=[E.seg("text", n // 2, 21), E.seg("mixed", n - n // 2, 22)], script=sc, trace=0))
+    # exactly buf_size - 1 / buf_size / buf_size + 1 bytes of periodic data, then finish: the last match ends at the last byte of
+    # the window buffer (forward reads of extend_match / its tail loop touch buf.len())
+    for mode, mf in (("fast", "hc4"), ("fast", "bt4"), ("normal", "hc4"), ("normal", "bt4")):
+        o = dict(dict=4096, mode=mode, mf=mf, nice=32)
+        bs, ka = real_window(dict(o))
+        for dlt in (-1, 0, 1):
+            J.append(E.mk_job(f"exact-bufsize{dlt:+d}-{mode}-{mf}", opt=o, input=[E.seg("periodic", bs + dlt, 31)], trace=(1 if dlt == 0 else 0)))
+            if mf == "hc4":
+                J.append(E.mk_job(f"exact-bufsize{dlt:+d}-{mode}-{mf}-l1", writer="lzma1", header=True, end_marker=True, opt=o,
+                                  input=[E.seg("periodic", real_window(dict(o), "lzma1")[0] + dlt, 33)], trace=0))
     # > 2 MiB uncompressed chunk limit (constant data), > 64 KiB compressed limit
     J.append(E.mk_job("ulimit-zeros", opt=f4k, input=[E.seg("zeros", (5 << 20) // (2 if quick else 1), 1)], trace=1))
     J.append(E.mk_job("ulimit-const-l1", writer="lzma1", header=True, end_marker=True, opt=f4k, input=[E.seg("const", 3 << 20, 5)], trace=1))
@@ -221,6 +245,8 @@ def concretise(bad, regime, tag):
         period = c["Dict"] - 36
         return E.mk_job(f"cex-{tag}", writer=writer, opt=opt, input=[E.seg("block", t + 100000, 3, period=period)],
                         script=[dict(op="w", n=t), dict(op="f"), dict(op="w", n=100000)], trace=1, **kw)
+    if bad == "pos_state_misaligned":
+        return flush_at_move_job(f"cex-{tag}", writer, opt, bufsize, keep_after, kw)
     if bad == "pending_assert":
         # positions that stay pending (look-ahead below the match finder's requirement) are re-processed by the next flush
         need = c["ReqFlush"]
@@ -230,6 +256,15 @@ def concretise(bad, regime, tag):
     t = bufsize - keep_after + 7
     return E.mk_job(f"cex-{tag}", writer=writer, opt=opt, input=[E.seg("mixed", t + 150000, 3)],
                     script=[dict(op="w", n=t // 2), dict(op="f"), dict(op="w", n=t - t // 2), dict(op="f"), dict(op="w", n=150000)], trace=1, **kw)
+
+
+def flush_at_move_job(jid, writer, opt, bufsize, keep_after, kw, cls="text", more=200000):
+    """flush() while write_pos is within the last keep_size_after bytes of the buffer: read_pos is at the move threshold and
+    the last positions are pending; the next write moves the window with pending_size > 0. The encoder takes pos_state and
+    the literal position bits from the buffer position, so the move must stay a multiple of 2^pb / 2^lp."""
+    t = bufsize - keep_after + 100
+    return E.mk_job(jid, writer=writer, opt=opt, input=[E.seg(cls, t + more, 7)],
+                    script=[dict(op="w", n=t), dict(op="f"), dict(op="w", n=more)], trace=1, **kw)
 
 
 def straddle_job(jid, writer, opt, bufsize, keep_after, kw):
@@ -280,6 +315,8 @@ def bad_of(r):
         m = re.search(r'"(\w+)"', s["vars"].get("bad", ""))
         if m and m.group(1) != "none":
             return m.group(1)
+    if r.violated == "PosStateAligned":
+        return "pos_state_misaligned"
     return r.violated or "unknown"
 
 
@@ -406,6 +443,7 @@ REGRESSIONS = [
     ("PassExtra", "FALSE", ["fast-hc4-smalldict", "fast-bt4-smalldict", "chunksize", "preset"], ["CopyInRange"]),
     ("MoveKeepsPending", "FALSE", ["fast-bt4-bigdict"], ["MatchSourceInRange"]),
     ("PendingAssertStrict", "TRUE", ["fast-bt4-smalldict", "normal-bt4-smalldict"], ["PendingAssertHolds"]),
+    ("MaskAfterPending", "FALSE", ["fast-hc4-bigdict"], ["PosStateAligned"]),
 ]
 
 
@@ -430,6 +468,10 @@ def run_plan(ctx, pid, tier):
     specs = [(full(dict(dict=rg.get("dict", 4096), mode=rg.get("mode", "fast"), mf=rg.get("mf", "hc4"), nice=rg.get("nice", 32))), rg.get("writer", "lzma2"))
              for _, rg in E.SCALED_CFGS.values()]
     specs += [(full(dict(dict=d, mode=mode, mf=mf, nice=32)), "lzma2") for d in (4096, 60000, 65536) for mode, mf in (("fast", "hc4"), ("normal", "bt4"))]
+    specs += [(full(dict(dict=4096, mode=m, mf=f, nice=32)), w) for m in ("fast", "normal") for f in ("hc4", "bt4") for w in ("lzma2", "lzma1")]
+    specs += [(full(dict(dict=65536, mode="fast", mf="hc4", nice=32)), "lzma2"), (full(dict(dict=65536, mode="normal", mf="bt4", nice=32)), "lzma2"),
+              (full(dict(dict=4096, mode="fast", mf="bt4", nice=30, lc=0, lp=2, pb=0)), "lzma2"),
+              (full(dict(dict=4096, mode="normal", mf="hc4", nice=64, lc=3, lp=0, pb=4)), "lzma2")]
     observe_windows(specs)
 
     # ---------------------------------------------------------------- stage 1: model checking of the as-built design
@@ -470,7 +512,7 @@ def run_plan(ctx, pid, tier):
             if "lzma1" in n:
                 must += ["Finish1Done"]
             else:
-                must += ["CloseLzma", "CloseRaw", "FlushCall"]
+                must += ["CloseLzma", "CloseRaw", "FlushCall"] + ([] if n in ("chunksize", "preset") else ["FillMovePending"])
             if n == "chunksize":
                 must += ["StartIndep", "IndepNew", "FillNew"]
             require_taken(r, must, n)
@@ -686,7 +728,7 @@ def finish_plan(ctx, pid, tier, pool, design, jobs, meta, results, noopt_jobs, n
     log(f"[stage3] {n_ok} traces accepted, {n_rej} groups rejected ({len(groups)} constant groups) in {time.time()-t0:.1f}s")
 
     # ---------------------------------------------------------------- vacuity guards
-    need = {"moves": "window move", "pending_reprocessed": "pending-bytes path", "chunks_raw": "uncompressed LZMA2 chunk",
+    need = {"moves": "window move", "moves_pending": "window move with pending positions", "pending_reprocessed": "pending-bytes path", "chunks_raw": "uncompressed LZMA2 chunk",
             "chunks_lzma": "LZMA chunk", "renorm": "position renormalisation", "norm_scalar": "scalar renormalisation path"}
     if pid in ("C01", "C15"):
         missing = [v for k, v in need.items() if cov.get(k, 0) == 0]
@@ -780,6 +822,20 @@ def try_symlib(ctx, tier):
 # =========================================================================== C13
 def run_c13(ctx, tier, rnd, pool, design):
     quick = tier == "quick"
+    for n, r in design.items():
+        if not r.ok:
+            raise ToolError(f"TLC reports {r.violated} for the as-built design {n}: C13's design argument (LookAheadGate) does not hold "
+                            f"for the code as modelled; trace tail {[x['action'] for x in r.trace][-12:]}")
+    # regression probe: the regressed design (keep_size_after = extra_size_after + nice_len) must be refuted by LookAheadGate;
+    # its concretisation is the partition-lookahead family below, which must give equal digests on the current code
+    if E.asbuilt()["KeepAfterUsesNice"] == "FALSE" and os.environ.get("C1_SKIP_DESIGN") != "1":
+        c = E.scaled(**dict(E.SCALED_CFGS["normal-bt4-smalldict"][0], KeepAfterUsesNice="TRUE", N=20))
+        r = E.model_check("probe", c, ["LookAheadGate"])
+        ctx.note_tlc("EncWindow regressed KeepAfterUsesNice", r)
+        ctx.add("regression_models_checked")
+        if r.ok:
+            raise ToolError("regression probe KeepAfterUsesNice=TRUE: the regressed design no longer violates LookAheadGate (vacuous probe)")
+        ctx.add("regression_probes")
     groups = []      # (group id, [jobs]) - all jobs of a group must produce the same bytes
     n_in = 26 if quick else 300
     for i in range(n_in):
@@ -823,6 +879,22 @@ def run_c13(ctx, tier, rnd, pool, design):
             sc = [dict(op="w", n=n) for n in _ragged(rnd, total, [4096, 100000])]
             groups.append((f"repeat-with-unit-size/{writer}",
                            [dict(base, id=f"c13-{i}-u", script=sc, chunk_size=rnd.choice([4096, 65536, 100000]), repeat=3, decode=False)]))
+    # LookAheadGate family: normal mode, nice_len below MATCH_LEN_MAX, data that gives the optimal parser chains of thousands of
+    # positions ending in a match of maximal length, under 1-byte / 13-byte / 4096-byte writes and one write: if a position
+    # deep in the look-ahead is consumed with less than MATCH_LEN_MAX bytes buffered, the long match is truncated to whatever
+    # input happens to be there and the bytes depend on the partition
+    gate = [(32, "hc4", "lzma2"), (32, "bt4", "lzma1"), (64, "bt4", "lzip"), (128, "bt4", "lzma2"), (8, "bt4", "lzma1"), (271, "hc4", "lzma1")]
+    if not quick:
+        gate += [(n, mf, w) for n in (8, 16, 32, 64, 128, 200, 271) for mf in ("hc4", "bt4") for w in ("lzma1", "lzma2", "lzip", "xz")]
+    for i, (nice, mf, writer) in enumerate(gate):
+        opt = dict(dict=65536, lc=3, lp=0, pb=2, mode="normal", mf=mf, nice=nice, depth=0)
+        kw = dict(header=False, end_marker=True) if writer == "lzma1" else {}
+        n = 300000 if (nice not in (8, 271) or not quick) else 100000    # chains of ~3900 positions that end in the phrase need many stretches
+        base = E.mk_job(f"c13-gate-{i}", writer=writer, opt=opt, input=[E.seg("wordy", n, 900 + i)], decode=False, **kw)
+        js = [dict(base, id=f"c13-gate-{i}-p{piece}", script=([dict(op="wall", n=piece)] if piece else [])) for piece in (0, 1, 13, 4096)]
+        js[0]["decode"] = True
+        js[1]["trace"] = 0
+        groups.append((f"partition-lookahead/{writer}", js))
     # repeated runs in one process on data whose encoding is sensitive to every tuning parameter (long hash chains / deep trees,
     # default depth limits): state that survives from one encoder instance to the next shows up as differing digests
     for i in range(8 if quick else 40):
